@@ -638,6 +638,13 @@ func (p *Prog) buildGuards() {
 				p.FinalChecks = append(p.FinalChecks, fc)
 			}
 		}
+		for _, ks := range ts.KeptAlive {
+			for _, m := range ks.Fields {
+				fc := &FinalCheck{Kind: "kept_alive_during", Type: key, Field: m, Tags: ks.Tags, Line: ks.Line, Pos: p.Fset.Position(tn.Pos()).String()}
+				fc.Sites = p.keptAliveDuring(tn, m)
+				p.FinalChecks = append(p.FinalChecks, fc)
+			}
+		}
 		for f, mu := range ts.Guarded {
 			fi, ok1 := idx[f]
 			mi, ok2 := idx[mu]
@@ -667,6 +674,7 @@ type axTrigger struct {
 // to the field (or to the whole struct, or any use of the field's address other
 // than a load) happens on an object the storing function allocated itself.
 type FinalCheck struct {
+	Kind        string // "" = final field; "kept_alive_during" = receiver lifetime of a method
 	Type, Field string
 	Tags        []string
 	Line        int
@@ -840,4 +848,91 @@ func (p *Prog) desigNamesMissingTarget(desig string) *MissingTarget {
 		}
 	}
 	return nil
+}
+
+// keptAliveDuring decides `kept_alive_during M` for the named type T: the module
+// sets a finalizer on *T values that ends the call they stand for, and the Go
+// runtime may run a finalizer as soon as the object is unreachable - which a
+// receiver is from the moment its last use in a method has been evaluated, even
+// while that method is still blocked in a callee. So *T must declare M itself (a
+// method promoted from an embedded field has a compiler-made wrapper whose last
+// use of the receiver is the load of that field), and M must keep the receiver
+// reachable until it returns: runtime.KeepAlive(receiver), directly or deferred,
+// or a deferred call on (a part of) the receiver, which holds an interior
+// pointer until it has run.
+func (p *Prog) keptAliveDuring(tn *types.TypeName, method string) []string {
+	T := tn.Type()
+	var fn *ssa.Function
+	if sel := p.Prog.MethodSets.MethodSet(types.NewPointer(T)).Lookup(tn.Pkg(), method); sel != nil {
+		fn = p.Prog.MethodValue(sel)
+	}
+	if fn == nil {
+		return []string{fmt.Sprintf("%s has no method %s", tn.Name(), method)}
+	}
+	if fn.Synthetic != "" || len(fn.Params) == 0 {
+		return []string{fmt.Sprintf("(*%s).%s is promoted from an embedded field (%s): the receiver is unreachable while the operation runs, so its finalizer may fire and end the call", tn.Name(), method, fn.Synthetic)}
+	}
+	recv := fn.Params[0]
+	fromRecv := func(v ssa.Value) bool {
+		for d := 0; d < 6 && v != nil; d++ {
+			if v == ssa.Value(recv) {
+				return true
+			}
+			switch x := v.(type) {
+			case *ssa.MakeInterface:
+				v = x.X
+			case *ssa.ChangeInterface:
+				v = x.X
+			case *ssa.FieldAddr:
+				v = x.X
+			case *ssa.UnOp:
+				if x.Op != token.MUL {
+					return false
+				}
+				// load of the local cell the receiver was spilled to
+				cell, ok := x.X.(*ssa.Alloc)
+				if !ok || cell.Referrers() == nil {
+					return false
+				}
+				v = nil
+				for _, r := range *cell.Referrers() {
+					if st, ok := r.(*ssa.Store); ok && st.Addr == ssa.Value(cell) {
+						v = st.Val
+					}
+				}
+			default:
+				return false
+			}
+		}
+		return false
+	}
+	for _, b := range fn.Blocks {
+		for _, in := range b.Instrs {
+			var c *ssa.CallCommon
+			deferred := false
+			switch x := in.(type) {
+			case *ssa.Defer:
+				c, deferred = &x.Call, true
+			case *ssa.Call:
+				c = &x.Call
+			}
+			if c == nil {
+				continue
+			}
+			if f := c.StaticCallee(); f != nil && f.Pkg != nil && f.Pkg.Pkg.Path() == "runtime" && f.Name() == "KeepAlive" && len(c.Args) == 1 && fromRecv(c.Args[0]) {
+				return nil
+			}
+			if deferred {
+				for _, a := range c.Args {
+					if fromRecv(a) {
+						return nil
+					}
+				}
+				if c.IsInvoke() && fromRecv(c.Value) {
+					return nil
+				}
+			}
+		}
+	}
+	return []string{fmt.Sprintf("(*%s).%s does not keep its receiver reachable until it returns (no runtime.KeepAlive(receiver), no deferred call on the receiver) at %s", tn.Name(), method, p.Fset.Position(fn.Pos()))}
 }
